@@ -43,7 +43,8 @@ def gen_plan(rng, i: int, tier: str) -> dict:
             "dc": {"omit_l2_at_31": rng.random() < 0.5, "domain": dn, "forest": fn, "skew_ticks": skew, "gkdi_port": rng.randrange(1024, 65536),
                    "pad_mode": rng.choice(("min16", "min4", "1")), "header_sign": rng.random() < 0.7},
             "delivery": rng.choice((None, {"mode": "rand", "seed": rng.getrandbits(16), "bias": rng.choice(("small", "header", "geo"))})),
-            "latency_us": [rng.choice((1, 50)), rng.choice((100, 4000, 900000))], "use_dns": rng.random() < 0.3, "ops": []}
+            "latency_us": [rng.choice((1, 50)), rng.choice((100, 4000, 900000))], "use_dns": rng.random() < 0.3, "ops": [],
+            "concurrent": rng.random() < 0.3}  # the async execution runs all operations at once (fresh cache each), the sync one in sequence
     n_ops = rng.randint(1, 6 if tier == "thorough" else 4)
     cur = gkdi.interval_of_filetime(now)
     for _ in range(n_ops):
@@ -74,13 +75,16 @@ def gen_plan(rng, i: int, tier: str) -> dict:
     return plan
 
 
-def _transcript(tr: P.Trace, with_tokens: bool):
+def _transcript(tr: P.Trace, with_tokens: bool, per_conn: bool = False):
     out = []
+    conns: t.Dict[t.Any, list] = {}
     for srv in (tr.dc.epm_server, tr.dc.gkdi_server):
         for e in srv.log:
             p = e.get("pdu")
             if p is None:
-                out.append((srv.name, e.get("event"), e.get("status")))
+                rec = (srv.name, e.get("event"), e.get("status"))
+                out.append(rec)
+                conns.setdefault((srv.name, e.get("conn")), []).append(rec)
                 continue
             item = [srv.name, p["name"], p["flags"], p["call_id"], p["auth_len"] if with_tokens else bool(p["auth_len"])]
             if p["auth"]:
@@ -93,6 +97,9 @@ def _transcript(tr: P.Trace, with_tokens: bool):
             if p["ptype"] == rpce.REQUEST:
                 item += [p["ctx_id"], p["opnum"], p["alloc_hint"], e.get("stub_padded", e.get("stub_clear"))]
             out.append(tuple(item))
+            conns.setdefault((srv.name, e.get("conn")), []).append(tuple(item))
+    if per_conn:  # concurrent execution: the conversations interleave; compare them as a multiset of per-connection transcripts
+        return sorted((repr(v) for v in conns.values()))
     return out
 
 
@@ -115,6 +122,20 @@ def judge_one(plan, tr: P.Trace, fl: str):
         if ot.op["op"] not in ("protect", "unprotect"):
             continue
         gks = ot.getkeys
+        if plan.get("_concurrent_now"):
+            # the operations ran at once: attribute the DC's log entries by their arguments
+            if ot.op["op"] == "unprotect":
+                sp = ot.blob_spec
+                wantk = (dtyp.target_sd(sp["sid"]), tr.root_keys[sp["rk"]].root_key_id, *sp["pos"])
+            else:
+                wantk = (dtyp.target_sd(ot.op["sid"]), tr.root_keys[ot.op["rk"]].root_key_id if ot.op.get("rk") is not None else None, -1, -1, -1)
+            pool = plan.setdefault("_pool", list(gks))
+            match = [x for x in pool if (x.get("sd"), x.get("root_key_id"), x.get("l0"), x.get("l1"), x.get("l2")) == wantk]
+            if not match:
+                return V("request-fidelity", "getkey-count", f"no GetKey request with the arguments of this operation among the {len(gks)} the DC saw (concurrent execution)", ot), probes
+            pool.remove(match[0])
+            gks = [match[0]]
+            probes["concurrent_ops"] = probes.get("concurrent_ops", 0) + 1
         if len(gks) != 1:
             return V("request-fidelity", "getkey-count", f"{len(gks)} GetKey requests for one operation with a fresh cache", ot), probes
         g = gks[0]
@@ -180,6 +201,14 @@ def judge_one(plan, tr: P.Trace, fl: str):
             return V("request-fidelity", "verification-trailer", f"verification trailer is not PCONTEXT(ISD_KEY, NDR64)|END: {vt}", ot), probes
     # connections: for every op, 135 then the mapped port
     att = tr.world.connect_attempts
+    if plan.get("_concurrent_now"):
+        if plan.get("_pool"):
+            return V("request-fidelity", "getkey-count", f"{len(plan['_pool'])} GetKey requests nobody asked for (concurrent execution)"), probes
+        n135 = sum(1 for a in att if a[1] == 135)
+        nport = sum(1 for a in att if a[1] == plan["dc"]["gkdi_port"])
+        if n135 != nport or n135 + nport != len(att) or any(a[0] != offline.DC for a in att):
+            return V("request-fidelity", "wrong-endpoint", f"connections {att} do not pair mapper and mapped port {plan['dc']['gkdi_port']}"), probes
+        att = []
     for k in range(0, len(att) - 1, 2):
         if att[k][1] != 135 or att[k + 1][1] != plan["dc"]["gkdi_port"] or att[k][0] != offline.DC or att[k + 1][0] != offline.DC:
             return V("request-fidelity", "wrong-endpoint", f"connections went to {att[k]} then {att[k + 1]}, mapper announced port {plan['dc']['gkdi_port']}"), probes
@@ -203,7 +232,8 @@ class C17(common.Check):
             "per-plan knobs: 4 hashes x {DH,P256,P384}, SIDs of 1..15 sub-authorities, domain/forest names 0..40 chars incl. non-ASCII, "
             "GKDI port, padding policy, header signing, envelope shape (L2 omitted at 31), DC clock skew, PRNG segmentation and latencies, "
             "DNS discovery, security context (StubCtx 1..3 legs / real NTLM / real Negotiate). Each plan runs once per flavour; request log, "
-            "results and sync-vs-async transcripts are judged. Non-trivial = every plan; distinct = distinct plan.")
+            "results and sync-vs-async transcripts are judged; in 30% of the plans the async execution runs all operations at once (the "
+            "conversations then interleave under the PRNG scheduler and are compared per connection). Non-trivial = every plan; distinct = distinct plan.")
     components = {"client": "real (public API both flavours, RPC client, AuthenticationProvider, all codecs)",
                   "DC": "model (RefDC: EPM + GKDI, independent codecs and key derivation)",
                   "security context": "stub (StubCtx) in ~70% of plans, real pyspnego NTLM / Negotiate->NTLM initiator+acceptor in ~30%",
@@ -211,7 +241,7 @@ class C17(common.Check):
     assumptions = ["Kerberos is not simulated", "loopback TCP of the statement is replaced by the simulated transport",
                    "ept_map max_towers / handle / referent ids and alloc_hint are recorded, not judged"]
     required_fired = ("unprotect_ok", "protect_seed", "protect_public", "future_key", "non_member_unprotect", "dns", "real_ctx", "l2_omitted",
-                      "pos_corner", "prev_l0", "blob_pub")
+                      "pos_corner", "prev_l0", "blob_pub", "concurrent_ops")
 
     def cases(self, tier, seed):
         rng = prng.stream(seed, "C17")
@@ -223,8 +253,11 @@ class C17(common.Check):
         viol = None
         probes: t.Dict[str, int] = {}
         traces = {}
+        conc = bool(case.get("concurrent")) and sum(1 for o in case["ops"] if "fl" in o) > 1
         for fl in ("sync", "async"):
-            plan = dict(case, ops=[dict(o, fl=fl) if "fl" in o else o for o in case["ops"]])
+            plan = dict(case, ops=[dict(o, fl=fl, group=(1 if (conc and fl == "async") else None)) if "fl" in o else o for o in case["ops"]])
+            if conc and fl == "async":
+                plan["_concurrent_now"] = True
             tr = P.execute_plan(plan)
             traces[fl] = tr
             v, pr = judge_one(plan, tr, fl)
@@ -235,11 +268,11 @@ class C17(common.Check):
         if not viol:
             a, b_ = traces["sync"], traces["async"]
             with_tokens = case["ctx"]["kind"] == "stub"
-            ta, tb = _transcript(a, with_tokens), _transcript(b_, with_tokens)
+            ta, tb = _transcript(a, with_tokens, conc), _transcript(b_, with_tokens, conc)
             if ta != tb:
                 k = next((i for i, (x, y) in enumerate(zip(ta, tb)) if x != y), min(len(ta), len(tb)))
-                viol = common.violation("C17", "flavour-equivalence", "sync-vs-async", "transcript", "", "",
-                                        f"client PDU #{k} differs: sync={str(ta[k] if k < len(ta) else None)[:300]} async={str(tb[k] if k < len(tb) else None)[:300]}")
+                viol = common.violation("C17", "flavour-equivalence", "sync-vs-async" + ("-concurrent" if conc else ""), "transcript", "", "",
+                                        f"{'conversation' if conc else 'client PDU'} #{k} differs: sync={str(ta[k] if k < len(ta) else None)[:300]} async={str(tb[k] if k < len(tb) else None)[:300]}")
             else:
                 for oa, ob in zip(a.ops, b_.ops):
                     if oa.outcome.kind != ob.outcome.kind or (oa.outcome.kind == "raise" and type(oa.outcome.exc) is not type(ob.outcome.exc)):
